@@ -310,14 +310,16 @@ def _signature_text(obj):
                            for p in sig.parameters.values()) + ")" + ret
 
 
-def signature_guard(modname, qualname, obj):
+def signature_guard(modname, qualname, obj, mode="real"):
     """obj itself, or a _Gone stand-in if the parameter list of a private callable is not the one the contracts were written against."""
     if not _is_private(qualname) or isinstance(obj, type) or not callable(obj):
         return obj
     text = _signature_text(obj)
     if text is None:
         return obj
-    key = "%s:%s" % (modname, qualname)
+    # (recorded per mode: the shadow copy of a module and the imported module may word the same annotation differently - as written in
+    # the source, or as the evaluated object prints)
+    key = "%s|%s:%s" % (mode, modname, qualname)
     rec = os.environ.get("ROPTVC_RECORD_SIGNATURES")
     if rec:
         try:
@@ -475,7 +477,7 @@ class TSym(TBase):
         self._sh = sh
         info = sh.info(modname, qualname)
         self.engine.note_function(info, stubs)
-        return signature_guard(modname, qualname, sh.get(modname, qualname))
+        return signature_guard(modname, qualname, sh.get(modname, qualname), "shadow")
 
     def under_contract(self, sh, modname, qualname, stubs=None):
         try:
@@ -486,7 +488,7 @@ class TSym(TBase):
             self.engine.note_gone(modname, qualname)
             return _Gone(str(exc))
         self.engine.note_function(info, stubs)
-        return signature_guard(modname, qualname, sh.get(modname, qualname))
+        return signature_guard(modname, qualname, sh.get(modname, qualname), "shadow")
 
     # --- logic ------------------------------------------------------------------------
     def assume(self, cond):
